@@ -69,6 +69,10 @@ COMMUTING_LOG = frozenset({'start', 'end', 'claim', 'cancelled', 'pull'})
 def dependent(a, b):
     if a is None or b is None:
         return True
+    if a[0] == 'multi':
+        return any(dependent(x, b) for x in a[1])
+    if b[0] == 'multi':
+        return any(dependent(a, x) for x in b[1])
     if a[0] in ('line', 'sync') or b[0] in ('line', 'sync'):
         return True
     if a[0] != b[0]:
@@ -82,6 +86,8 @@ def dependent(a, b):
         return False
     if k == 'log':
         return not (a[1] in COMMUTING_LOG and b[1] in COMMUTING_LOG)
+    if k == 'ex':           # executor-wide state (terminated flag): readers commute with each other
+        return a[1] == b[1] and 'w' in (a[2], b[2])
     return a[1] == b[1]
 
 
@@ -713,16 +719,18 @@ class FakeFuture:
             self.callbacks.append(fn)
 
     # worker side
-    def set_running_or_notify_cancel(self, veto=None):
-        CUR.point(self._lab())
+    def set_running_or_notify_cancel(self, veto=None, also=None):
+        CUR.point(self._lab() if also is None else ('multi', (self._lab(), also)))
         if self.state == CANCELLED or (veto is not None and veto()):
             return False
         self.state = RUNNING
         CUR.log.append(('claim', cur_thread().tid, self.fid))
         return True
 
-    def _finish(self, result=None, exc=None):
-        CUR.point(self._lab())
+    def _finish(self, result=None, exc=None, veto=None, also=None):
+        CUR.point(self._lab() if also is None else ('multi', (self._lab(), also)))
+        if veto is not None and veto():
+            return          # the worker process was killed before it could deliver
         self._result, self._exc, self.state = result, exc, FINISHED
         for fn in self.callbacks:
             fn(self)
@@ -782,24 +790,30 @@ class _PoolBase:
                 self.workq.put(None)
                 return
             fut, (fn, args, kwargs) = item
-            if not fut.set_running_or_notify_cancel(veto=lambda: self.terminated):
+            if not fut.set_running_or_notify_cancel(veto=lambda: self.terminated, also=('ex', self.xid, 'r')):
                 continue            # cancelled, or the pool was terminated: killed workers run nothing
             try:
                 r = fn(*args, **kwargs)
+                if self.terminated:
+                    continue        # the worker process was killed meanwhile: its result is never delivered
                 r = self._ship(r)
             except BaseException as e:      # noqa: BLE001
                 if isinstance(e, Abort):
                     raise
+                if self.terminated:
+                    continue
                 try:
                     e = self._ship(e)
                 except BaseException as e2:     # noqa: BLE001
                     e = e2
-                fut._finish(exc=e)
+                fut._finish(exc=e, veto=lambda: self.terminated, also=('ex', self.xid, 'r'))
             else:
-                fut._finish(result=r)
+                fut._finish(result=r, veto=lambda: self.terminated, also=('ex', self.xid, 'r'))
             self.idle += 1
 
     def _shutdown(self, wait=True, drop_pending=False):
+        if drop_pending:
+            CUR.point(('ex', self.xid, 'w'))    # killing the worker processes races with their claims and deliveries
         CUR.emit('shutdown-begin', self.xid)
         self.shut = True
         if drop_pending:
